@@ -21,6 +21,7 @@ int al_iter_remove(int it);
 int al_empty(int l);
 int al_peek(int l);
 int al_next_is_null(int n);
+int al_long_list(unsigned n, unsigned salt, char *msg, size_t msglen);
 }
 
 const char *H_NAME = "list";
@@ -83,6 +84,16 @@ void compare_all(Ctx &c, Model &m, const char *after)
 void h_run(Ctx &c)
 {
 	Tape &t = c.t;
+	if (long n = c.param("longlist", 0)) { // replay path of the long-list stage (h_custom below)
+		char msg[300] = "";
+		unsigned salt = (unsigned)t.choose(1u << 20);
+		c.note("one list of %ld nodes (salt %u): membership, iterator positions, removal, traversal, sorted insertion", n, salt);
+		if (al_long_list((unsigned)n, salt, msg, sizeof msg))
+			c.fail("%s", msg);
+		c.cls("long-list");
+		c.nontrivial = true;
+		return;
+	}
 	Model m;
 	m.NN = (int)c.param("nodes", 6);
 	m.NL = (int)c.param("lists", 3);
@@ -96,8 +107,14 @@ void h_run(Ctx &c)
 	al_reset();
 	long maxops = c.param("maxops", 60);
 	long nops = t.enumerating ? c.param("ops", 4) : t.range(0, maxops);
+	// the comparator returns the key difference (as the library's own duetime_cmp does): keys far apart make its
+	// result large in magnitude (up to 2^30), not just -1/0/+1
+	static const int SCALE[] = { 1, 1, 1000, 40000, 100000, 1 << 20, 1 << 29 };
+	int scale = (!t.enumerating && c.feat(2)) ? SCALE[t.choose(sizeof SCALE / sizeof *SCALE)] : 1;
+	if (scale >= 40000)
+		c.cls("comparator-results-beyond-16-bits");
 	for (int n = 0; n < m.NN; n++) {
-		m.key[n] = t.enumerating ? (n % nkeys) : (int)t.choose(nkeys);
+		m.key[n] = (t.enumerating ? (n % nkeys) : (int)t.choose(nkeys)) * scale;
 		al_set_key(n, m.key[n]);
 	}
 	if (c.want_log) {
@@ -317,5 +334,38 @@ void h_run(Ctx &c)
 		}
 		if (!c.failed)
 			compare_all(c, m, what);
+	}
+}
+
+// long lists: one list of n nodes, n around 2^8 and beyond 2^16 (a position counter narrower than the list is long,
+// a comparator result squeezed into 16 bits: neither can show with six nodes)
+void h_custom(long worker, long workers, long seed, std::map<std::string, std::string> &params, CustomOut &o)
+{
+	static const unsigned NS[] = { 255, 256, 257, 300, 4097, 65535, 65536, 65537, 65600, 70001, 131073, 200000 };
+	(void)params;
+	char msg[300], buf[200];
+	for (unsigned i = 0; i < sizeof NS / sizeof *NS && !o.failed; i++) {
+		if ((long)(i % workers) != worker)
+			continue;
+		unsigned salt = (unsigned)(seed * 7919 + i) & 0xfffff;
+		o.evaluations++;
+		o.nontrivial++;
+		o.distinct++;
+		o.classes["long-list"]++;
+		if (NS[i] > 65536)
+			o.classes["list-longer-than-65536-nodes"]++;
+		snprintf(buf, sizeof buf, "one list of %u nodes: membership/iterator probes, removal at depth, traversal, sorted insertion", NS[i]);
+		o.samples.push_back(buf);
+		msg[0] = 0;
+		if (engine_custom_case) {
+			snprintf(buf, sizeof buf, "param longlist=%u\n", NS[i]);
+			engine_custom_case(1, buf)[0] = salt;
+		}
+		if (al_long_list(NS[i], salt, msg, sizeof msg)) {
+			o.failed = true;
+			o.failmsg = msg;
+			o.fail_tape = { salt };
+			o.fail_params["longlist"] = std::to_string(NS[i]);
+		}
 	}
 }
